@@ -791,4 +791,42 @@ where
             h.expect(!v.is_ok(), "C04.cross_iface", "plain proof verifies through the blind interface", &[h.last()]);
         }
     }
+    // long header / presentation header / disclosed message altered WITHOUT changing its length, at the first
+    // octet, around octet 32 and 64, and at the last octet -- each directly after the honest verification (so
+    // that anything remembered from the honest statement is still warm)
+    {
+        let (sk, pk) = rand_keypair::<CS>(h);
+        let lens: Vec<usize> = if thorough { vec![33, 64, 65, 100, 300] } else { vec![33, 100] };
+        for hl in lens {
+            let mut msgs = distinct_msgs(h, 3);
+            msgs[1] = h.rng.bytes(hl);
+            let hdr = h.rng.bytes(hl);
+            let ph = h.rng.bytes(hl + 7);
+            let s = match sign::<CS>(h, &sk, &pk, Some(&hdr), Some(&msgs)).ok() { Some(s) => s.to_bytes().to_vec(), None => continue };
+            let d = vec![1usize, 2];
+            let p = match honest_proof::<CS>(h, &pk, &s, Some(&hdr), Some(&ph), &msgs, &d, true) { Some(p) => p, None => continue };
+            let dm = pick_msgs(&msgs, &d);
+            let pb = p.to_bytes();
+            let mut pos: Vec<usize> = vec![0, 31, 32, 63, 64, hl - 1];
+            pos.retain(|&x| x < hl);
+            pos.dedup();
+            for x in pos {
+                let v = proofverify::<CS>(h, &pk, &p, Some(&hdr), Some(&ph), Some(&dm), Some(&d));
+                h.expect(v.is_ok(), "C03.verify", "honest proof with a long header does not verify", &[h.last()]);
+                let mut h2 = hdr.clone();
+                h2[x] ^= 0x20;
+                expect_reject::<CS>(h, "hdr_same_length", &pk, &pb, Some(&h2), Some(&ph), &dm, &d);
+                let v = proofverify::<CS>(h, &pk, &p, Some(&hdr), Some(&ph), Some(&dm), Some(&d));
+                h.expect(v.is_ok(), "C03.verify", "honest proof with a long header does not verify", &[h.last()]);
+                let mut p2 = ph.clone();
+                p2[x] ^= 0x20;
+                expect_reject::<CS>(h, "ph_same_length", &pk, &pb, Some(&hdr), Some(&p2), &dm, &d);
+                let v = proofverify::<CS>(h, &pk, &p, Some(&hdr), Some(&ph), Some(&dm), Some(&d));
+                h.expect(v.is_ok(), "C03.verify", "honest proof with a long header does not verify", &[h.last()]);
+                let mut m2 = dm.clone();
+                m2[0][x] ^= 0x20;
+                expect_reject::<CS>(h, "dmsg_same_length", &pk, &pb, Some(&hdr), Some(&ph), &m2, &d);
+            }
+        }
+    }
 }
